@@ -239,7 +239,10 @@ class Gen:
           sn = rng.choice(['C16Sf', 'C16Sg']); td = ('s', sn)
           r = declare('Wire', 'wt', td)
           f = {'C16Sf': 'data', 'C16Sg': rng.choice(['a', 'b', 'q.data'])}[sn]
-          upblk([f's.{r}.{f} <<= ~s.{r}.{f}'], ff=True)
+          nx = declare('Wire', 'wn', td)
+          upblk([f's.{nx} @= s.{r}', f's.{nx}.{f} @= ~s.{r}.{f}'])
+          upblk([f's.{r} <<= s.{nx}'], ff=True)
+          sources.append((nx, td))
         sources.append((r, td))
       elif kind == 'binop':
         bs = bits_sources()
